@@ -1137,3 +1137,111 @@ pub fn report_dial(rep: &mut crate::core::Report, seed: u64) -> serde_json::Valu
     serde_json::json!({"announcement_steps": d.cases, "dials_observed": d.dials_observed,
         "rule": "a real validator network (consensus::Network::maintain_connection) fed through validator_addrs.update over loop-back TCP in real time: valid, forged, older, non-member and other-member announcements; one run"})
 }
+
+// ---------------------------------------------------------------------------------------------
+// The debug page (C10): what a node *renders* from validly signed but absurd announcements.
+// The node's address book is fed, through the real `ValidatorAddrsWatch::update`, one announcement
+// signed by a committee member (faulty weight 1 of a committee with f = 1); the real
+// `debug_page::Server` then serves one HTTP request over loop-back TCP.  The server task must not
+// panic (the node is built with panic = abort), and the request must be answered.
+
+pub struct PageOutcome {
+    pub cases: u64,
+    pub served: u64,
+    pub viol: Vec<(String, String)>,
+    pub machinery: Vec<String>,
+}
+
+pub fn run_debug_page(seed: u64) -> PageOutcome {
+    let mut out = PageOutcome { cases: 0, served: 0, viol: vec![], machinery: vec![] };
+    let rt = tokio::runtime::Builder::new_multi_thread().worker_threads(4).enable_all().build().unwrap();
+    let c = util::committee(seed, &[1, 1, 1, 1, 1, 1]);
+    let w = Arc::new(crate::bftsim::World { c, proposals: vec![], invalid_payload: Payload(vec![]) });
+    crate::core::quiet_all(std::env::var("VERIF_SHOW_PANICS").is_err());
+    for (i, a) in super::wiretypes::net_addresses().into_iter().enumerate() {
+        out.cases += 1;
+        let desc = format!("validator #1 announces {{addr {}, version {}, timestamp = epoch + {:?}}}", a.addr, a.version, a.timestamp - time::UNIX_EPOCH);
+        match rt.block_on(one_page(seed ^ i as u64, w.clone(), a)) {
+            Ok(None) => out.served += 1,
+            Ok(Some(p)) => {
+                let k = format!("debug_page_panic:{}", p.chars().take(60).collect::<String>());
+                if !out.viol.iter().any(|x| x.0 == k) {
+                    out.viol.push((k, format!("[debug_page] {desc}; the node stored the announcement, and serving its debug page then panicked: {p}")));
+                }
+            }
+            Err(e) => out.machinery.push(format!("debug page, {desc}: {e}")),
+        }
+    }
+    crate::core::quiet_all(false);
+    drop(rt);
+    out
+}
+
+/// Ok(None): the page was served. Ok(Some(panic message)): the server panicked. Err: no verdict.
+async fn one_page(seed: u64, w: Arc<crate::bftsim::World>, a: validator::NetAddress) -> Result<Option<String>, String> {
+    use tokio::io::{AsyncReadExt as _, AsyncWriteExt as _};
+    use zksync_consensus_network::debug_page;
+    let page_addr = *zksync_concurrency::net::tcp::testonly::reserve_listener();
+    let w2 = w.clone();
+    let server = tokio::spawn(async move {
+        let w = w2;
+        let rng = &mut util::rng(seed, 0xdeb6);
+        let root = ctx::test_root(&ctx::RealClock);
+        let ctx = &root;
+        let store = NetStore::new(&w.c.genesis, &[], Lie::Honest, u64::MAX, None);
+        let (mgr, runner) = EngineManager::new(ctx, Box::new(store), time::Duration::seconds(1)).await.map_err(|e| format!("{e:?}"))?;
+        let gnet = nv::VGossip::new(make_cfg(rng, Some(w.c.keys[0].clone())), mgr, Some(w.c.epoch));
+        let vnet = nv::VConsensus::new(&gnet).map_err(|e| e.to_string())?;
+        let signed = Arc::new(w.c.keys[1].sign_msg(a));
+        let stored = gnet.addrs_update(&w.c.schedule, &[signed]).await.is_ok() && gnet.addrs_current().contains_key(&w.c.keys[1].public());
+        let net = nv::node_state(&gnet, vnet.as_ref());
+        let srv = debug_page::Server::new(debug_page::Config { addr: page_addr }, net);
+        let srv = &srv;
+        let r: Result<bool, ctx::Error> = scope::run!(ctx, |ctx, s| async move {
+            s.spawn_bg(async move {
+                let _ = runner.run(ctx).await;
+                Ok(())
+            });
+            s.spawn_bg(async move { srv.run(ctx, false).await.map_err(ctx::Error::Internal) });
+            // the request: answered (any status) or the connection is closed by the server
+            let mut answered = false;
+            for _ in 0..400 {
+                let Ok(mut tcp) = tokio::net::TcpStream::connect(page_addr).await else {
+                    tokio::time::sleep(Duration::from_millis(25)).await;
+                    continue;
+                };
+                let _ = tcp.write_all(b"GET / HTTP/1.1\r\nHost: node\r\nConnection: close\r\n\r\n").await;
+                let mut buf = vec![];
+                let _ = tokio::time::timeout(Duration::from_secs(30), tcp.read_to_end(&mut buf)).await;
+                answered = buf.starts_with(b"HTTP/1.1 200");
+                break;
+            }
+            Ok(answered)
+        }).await;
+        r.map(|answered| (answered, stored)).map_err(|e| format!("{e:?}"))
+    });
+    match server.await {
+        Ok(Ok((true, _))) => Ok(None),
+        Ok(Ok((false, stored))) => Err(format!("no HTTP 200 answer and no panic (announcement stored: {stored})")),
+        Ok(Err(e)) => Err(e),
+        Err(e) if e.is_panic() => {
+            let p = e.into_panic();
+            let msg = p.downcast_ref::<String>().cloned().or_else(|| p.downcast_ref::<&str>().map(|s| s.to_string())).unwrap_or_else(|| "panic".into());
+            Ok(Some(msg))
+        }
+        Err(e) => Err(format!("server task: {e}")),
+    }
+}
+
+pub fn report_debug_page(rep: &mut crate::core::Report, seed: u64) -> serde_json::Value {
+    let d = run_debug_page(seed);
+    for (k, w) in &d.viol {
+        rep.violations.push(crate::core::Violation { key: k.clone(), what: w.clone(), replay: serde_json::json!({"harness": "gossipnet", "config": {"scenario": "debug_page"}, "deviations": []}) });
+    }
+    rep.machinery_errors.extend(d.machinery.iter().cloned());
+    if d.viol.is_empty() && d.machinery.is_empty() && d.served == 0 {
+        rep.machinery_errors.push("vacuous: the debug page was never served".into());
+    }
+    serde_json::json!({"announcements": d.cases, "pages_served": d.served,
+        "rule": "a real node state (gossip + validator network) whose address book received, through ValidatorAddrsWatch::update, one announcement signed by a committee member with an extreme address / version / timestamp; the real debug_page::Server answers one HTTP request over loop-back TCP; one run per listed announcement"})
+}
